@@ -145,6 +145,10 @@ class Verdict:
             brief = _brief(rec)
             print(f"VIOLATION property={self.prop} replay={path}")
             print(f"  kind={rec.get('kind')} rule={rec.get('rule')} {brief}")
+        if os.environ.get("VERIF_ALL_VIOLATIONS"):  # development aid: one line per unlisted record
+            for rec in self.unlisted:
+                d = _detail(rec)
+                print(f"  UNLISTED kind={rec.get('kind')} rule={d.get('attributed_rule') or rec.get('rule')} what={str(d.get('shape') or d.get('label') or d.get('idioms') or '')[:160]}")
         coverage["unlisted_violations"] = len(self.unlisted)
         evidence = {
             "property_id": self.prop,
